@@ -120,3 +120,36 @@ for _names in (['n'], ['n', 'm']):
                      opaque={'found': ([], Bool)}, opaque_classes=['DependencyOverride'],
                      modifies=['self.build'], floor=6,
                      note=f'{k_} name(s), {_mname} machine: a found dependency is returned AND recorded under the identifier of every name of the call unless an entry exists (which is kept); nothing else is recorded; a required dependency that is not found is an error at the last candidate (or when a candidate answered with a not-found dependency)')
+
+# ---- the first candidate of every lookup (_get_cached_dep): an override wins; otherwise, when the fallback is FORCED and known, what an
+# earlier configuration found on the system (the persisted cache coredata.deps) is not an answer — the system is not consulted, not
+# even through its memory; otherwise the persisted entry is the answer when its version still fits
+try:
+    from mesonbuild.utils.universal import MachineChoice as _MC2
+    _PM2 = Struct('PerMachine', 'mesonbuild.utils.universal:PerMachine', build=_Dict(Obj, Obj), host=_Dict(Obj, Obj))
+    _HS2 = Struct('DependencyFallbacksHolder', 'mesonbuild.interpreter.dependencyfallbacks:DependencyFallbacksHolder',
+                  build=Struct('Build', 'mesonbuild.build:Build', dependency_overrides=_PM2), coredata=Struct('CoreData', 'mesonbuild.coredata:CoreData', deps=_PM2),
+                  for_machine=Const(_MC2.HOST), forcefallback=Bool, subproject_name=Opt(Str))
+    _ID = "dep_identifier(name, kwargs)"
+    _OV, _CA = "self.build.dependency_overrides.host", "self.coredata.deps.host"
+    _HASOV = f"({_ID} in {_OV} and truthy({_OV}[{_ID}]))"
+    _FORCED = "(self.forcefallback and self.subproject_name is not None and self.subproject_name != '')"
+    _CV = "[e for e in __trace__ if e[0] == '_check_version']"
+    REG.contract('C10', D, 'DependencyFallbacksHolder._get_cached_dep', variant='host', params={'self': _HS2, 'name': Str, 'kwargs': Obj},
+                 ensures=[
+                     # forced and known fallback, nothing overridden: no answer from the persisted system cache
+                     f"implies(not {_HASOV} and {_FORCED}, result is None)",
+                     # an override whose dependency is not found is the answer as it is
+                     f"implies({_HASOV} and not obj_found(attr_dep({_OV}[{_ID}])), result is attr_dep({_OV}[{_ID}]))",
+                     # an override that is found: the answer iff its version fits (a not-found dependency otherwise: the search ends here)
+                     f"implies({_HASOV} and obj_found(attr_dep({_OV}[{_ID}])) and truthy(attr_dep({_OV}[{_ID}])), len({_CV}) == 1 and (result is attr_dep({_OV}[{_ID}]) if {_CV}[0][-1] else result is [e for e in __trace__ if e[0] == '_notfound_dependency'][0][-1]))",
+                     # not forced, nothing overridden: the persisted entry iff there is one and its version still fits
+                     f"implies(not {_HASOV} and not {_FORCED} and {_ID} in {_CA} and truthy({_CA}[{_ID}]), len({_CV}) == 1 and (result is {_CA}[{_ID}] if {_CV}[0][-1] else result is None))",
+                     f"implies(not {_HASOV} and not {_FORCED} and not ({_ID} in {_CA} and truthy({_CA}[{_ID}])), result is None)"],
+                 opaque={'found': ([], Bool), 'get_version': ([], Str)}, opaque_attrs={'dep': Obj, 'explicit': Bool},
+                 opaque_fns={'stringlistify': ([Obj], List(Str))},
+                 method_effects={'_log_found': [], '_check_version': {'returns': Bool, 'raises': []}, '_notfound_dependency': {'returns': Obj, 'raises': []}, 'get': {'returns': Obj, 'raises': []}},
+                 floor=6,
+                 note='the cache candidate: an override wins (a not-found one ends the search); with a forced, known fallback the persisted system lookups of earlier configurations are NOT consulted; otherwise the persisted entry answers iff its version still fits')
+except ImportError:      # pragma: no cover
+    pass
